@@ -229,9 +229,11 @@ func (root *Root) regField(obj *Object, fd *FieldDef, goField string, args ...st
 		meta = meta.Elem()
 	}
 	if meta.Kind() == reflect.Struct {
+		// An unexported field can not be read. It is passed over, a method
+		// of that name (the getter) may be what is meant.
 		if field, ok := meta.FieldByNameFunc(func(name string) bool {
 			return strings.EqualFold(name, goField)
-		}); ok {
+		}); ok && len(field.PkgPath) == 0 {
 			fd.goField = field.Name
 			if 0 < len(args) {
 				err = fmt.Errorf("%w: field %s on %s does not have argument", ErrMeta, goField, meta)
